@@ -5,6 +5,7 @@
 #include <memory>
 #include <vector>
 #include <sys/mman.h>
+#include <sys/time.h>
 #include "rkcommon/utility/multidim_index_sequence.h"
 #include "rkcommon/array3D/for_each.h"
 #include "rkcommon/array3D/Array3D.h"
@@ -69,6 +70,13 @@ static signed char *bigmem()
   }
   return p;
 }
+
+// An operation on the huge mapping touches a handful of cells. One that instead walks the mapping would commit tens of
+// GiB: it is stopped after 3 s of CPU time (user + kernel: the page faults are most of it) (SIGPROF ends the process; the runner reports the case as a crash).
+struct CpuGuard {
+  explicit CpuGuard(int seconds) { itimerval t{}; t.it_value.tv_sec = seconds; setitimer(ITIMER_PROF, &t, nullptr); }
+  ~CpuGuard() { itimerval t{}; setitimer(ITIMER_PROF, &t, nullptr); }
+};
 
 template <typename SEQ, typename VEC>
 static std::string iterProtocol(const SEQ &seq, const SEQ &other, const VEC &dims, const VEC &odims, ull st)
@@ -168,6 +176,7 @@ int main()
           vec3i d(I(w[1]), I(w[2]), I(w[3])), c(I(w[4]), I(w[5]), I(w[6])), q(I(w[9]), I(w[10]), I(w[11]));
           ull n = (ull)d.x * (ull)d.y * (ull)d.z, idx = U(w[8]);
           if (n > BIGMEM_BYTES - 4096 || idx >= n) return "bad-op";
+          CpuGuard guard(3);
           ActualArray3D<signed char> a(d, mem);
           a.set(c, (signed char)I(w[7]));
           int r1 = a.get(c), r2 = mem[idx], r3 = a.get(q);
